@@ -742,7 +742,8 @@ fn main() {
         let variant = VARIANTS[rng.below(4) as usize];
         let timeout = matches!(variant, "futfallible" | "fut") && rng.chance(1, 2);
         // (drawn from a generator of its own so that the other choices of a seed stay what they were)
-        TIMEOUT_US.store(if sub == "account" && Rng::new(seed ^ 0x5B).chance(1, 3) { 700 } else { TIMEOUT_MS * 1000 }, SeqCst);
+        // (only on the paused clock: on the real clock of `rt=multi` a 700 us deadline races with the scheduling latency of a fast item)
+        TIMEOUT_US.store(if sub == "account" && !multi && Rng::new(seed ^ 0x5B).chance(1, 3) { 700 } else { TIMEOUT_MS * 1000 }, SeqCst);
         let limit = rng.range(1, if sub == "close" { 4 } else { 8 }) as u32;
         // 0: metrics, 1: logs + metrics, 2: none, 3: expensive metrics, 4: logs + expensive metrics (every setting but 2 counts the items)
         let instr = rng.below(5);
